@@ -2,11 +2,13 @@
 """Copy confirmed seeded changes from the scratch worktrees into /verif/seeded/<id>-<variant>/."""
 import json, os, shutil, glob, subprocess, sys
 detected = json.load(open('/verif/seeded/detected.json')) if os.path.exists('/verif/seeded/detected.json') else {}
-for d in sorted(glob.glob('/tmp/mut/C*/out/*')):
+for d in sorted(glob.glob('/tmp/mut/C*/out/*')) + sorted(glob.glob('/tmp/mut2/C*/out/*')):
     if not os.path.isdir(d) or not os.path.exists(d + '/patch.diff'):
         continue
     pid = d.split('/')[3]
     var = os.path.basename(d)
+    if d.startswith('/tmp/mut2/'):
+        var = 'r2' + var
     conf = json.load(open(d + '/confirm.json')) if os.path.exists(d + '/confirm.json') else {}
     if not conf.get('confirmed'):
         continue
@@ -18,8 +20,8 @@ for d in sorted(glob.glob('/tmp/mut/C*/out/*')):
     shutil.copy(d + '/patch.diff', out + '/patch.diff')
     shutil.copy(d + '/demo.rs', out + '/demo.rs')
     src_meta = d + '/meta.json'
-    if not os.path.exists(src_meta) and var.endswith('_port'):
-        src_meta = d.replace('_port', '') + '/meta.json'
+    if not os.path.exists(src_meta) and d.endswith('_port'):
+        src_meta = d[:-5] + '/meta.json'
     meta = json.load(open(src_meta)) if os.path.exists(src_meta) else {}
     meta['property'] = pid
     meta['confirmed_by_me'] = {"suite_with_change": conf.get('suite_summary'), "demo_exit_with_change": conf.get('demo_exit_with_change'),
